@@ -283,6 +283,7 @@ struct s // p20
 #define EQ =
 #define PLUS +
 #define LT <
+#define GTM(a,b) ((a)>(b)+1)
 #define QM ?
 #define GT >
 #define CM ,
